@@ -976,7 +976,7 @@ class SyncObj(object):
 
             # Install snapshot
             elif serialized is not None:
-                if self.__serializer.setTransmissionData(serialized):
+                if self.__serializer.setTransmissionData(serialized, self.__isSnapshotAhead):
                     if self.__loadDumpFile(clearJournal=True):
                         # what is known to match the leader's log is the snapshot's position;
                         # entries kept behind it are verified by the append_entries that follow
@@ -1440,6 +1440,11 @@ class SyncObj(object):
             if request is not None:
                 cluster = self.__clusterBeforeChange(cluster, request)
         self.__serializer.serialize((data, lastAppliedEntries[1], lastAppliedEntries[0], cluster), lastAppliedEntries[0][1])
+
+    def __isSnapshotAhead(self, data):
+        # A snapshot that is not ahead of us (the leader sent it again after an outdated
+        # rejection) must not replace the dump this node would restart from.
+        return data[1][1] > self.__raftLastApplied
 
     def __loadDumpFile(self, clearJournal):
         try:
